@@ -332,6 +332,15 @@ def _run_case(spec, ctx):
                 return mp.matrix([[-x, w, z, -y], [-y, -z, w, x], [-z, y, -x, w]]) * 2
             D = _mp_partial(Tq_un, Pu, (3, 4))
             _report(ctx, "T_SO3_quat_P", Pu, R.T_SO3_quat_P(Pu, normalize=False), D, extra={"normalize": False})
+            # the non-normalising variant is a map of every nonzero quaternion as well (linear in P): the same comparison at
+            # the sampled quaternion of general length, with the model tied to the real map there first
+            Tun_ref = np.array(mpref.tolist(Tq_un([mp.mpf(float(v)) for v in P])))
+            if np.abs(R.T_SO3_quat(P, normalize=False) - Tun_ref).max() > 1e-12 * np.abs(Tun_ref).max():
+                ctx.violation("T_SO3_quat", "real map (normalize=False) differs from the textbook model used for its derivative", {"P": P})
+            D = _mp_partial(Tq_un, P, (3, 4))
+            _report(ctx, "T_SO3_quat_P", P, R.T_SO3_quat_P(P, normalize=False), D, extra={"normalize": False, "unit": False})
+            D = _mp_partial(Tiq, P, (4, 3))
+            _report(ctx, "T_SO3_inv_quat_P", P, R.T_SO3_inv_quat_P(P, normalize=False), D, extra={"normalize": False, "unit": False})
             # ... and the normalising variant at the same unit quaternion (all four ambient directions, no projection)
             D = _mp_partial(Tq, Pu, (3, 4))
             _report(ctx, "T_SO3_quat_P", Pu, R.T_SO3_quat_P(Pu, normalize=True), D, scale=max(1.0, np.abs(D).max()), extra={"normalize": True, "unit": True})
